@@ -75,7 +75,13 @@ func ruleC07R1(r *Run) {
 				}
 			}
 			name := fnName(fn)
-			for _, a := range collectAccesses(fn) {
+			// the method and the closures it hands to helpers (x.locked(func(){…}))
+			var accs []Access
+			withAnon(fn, func(f *ssa.Function) { accs = append(accs, collectAccesses(f)...) })
+			sameParam := func(v ssa.Value, prm *ssa.Parameter) bool {
+				return canonVal(v) == ssa.Value(prm) || paramOf(v) == prm
+			}
+			for _, a := range accs {
 				fk := fieldKey(a.Owner, a.Field)
 				if !mapFields[fk] || !a.Write {
 					continue
@@ -110,16 +116,16 @@ func ruleC07R1(r *Run) {
 						okKey = false
 						why = "method has no stream-id parameter"
 					} else if !inner {
-						if canonVal(key) != ssa.Value(idParam) {
+						if !sameParam(key, idParam) {
 							okKey = false
 							why = "outer map mutated with a key that is not the stream-id parameter"
 						}
 					} else {
-						if canonVal(outerKey) != ssa.Value(idParam) {
+						if !sameParam(outerKey, idParam) {
 							okKey = false
 							why = "inner map selected with a key that is not the stream-id parameter"
 						}
-						if seqParam != nil && canonVal(key) != ssa.Value(seqParam) {
+						if seqParam != nil && !sameParam(key, seqParam) {
 							okKey = false
 							why = "inner map mutated with a key that is not the sequence parameter"
 						}
